@@ -111,6 +111,7 @@ def run(ctx):
                                                             'qstr', 'storage-label', 'compare-units', 'store-contents',
                                                             'from-storage', 'round-then-scale') else None, sc)
     seen_units = set()
+    uses_stored_volume = False
     for o in options:
         v = strip_refs(o)
         unit_lbl = branch_label(ff.state_before(o.stmt))
@@ -151,7 +152,9 @@ def run(ctx):
             d = strip_refs(den)
             cached = isinstance(d, ast.Attribute) and d.attr == 'volume'
             ok = cached and unit_lbl == 'L'
-            fact = 'uses the cached volume (justified by C10.R1)' if cached else f"denominator {show(den, 60)}"
+            fact = 'uses the stored volume (every writer of contents must keep it current: pairing obligations below)' \
+                if cached else f"denominator {show(den, 60)}"
+            uses_stored_volume = uses_stored_volume or cached
         else:
             kinds, api, it = td
             ok = kinds == want or (api and kinds is not None and kinds >= want)
@@ -163,6 +166,12 @@ def run(ctx):
     for u in ('L', 'g', 'mol', 'U'):
         ctx.ob('C02.R1', tr, tr.node.lineno, f"quantity unit {u} has a branch", u in seen_units, nontrivial=False,
                why='a quantity unit named by the property is not handled', key=f"unit branch {u}")
+
+    if uses_stored_volume:
+        # the volume branch divides by the stored volume of the source: the aliquot has the requested size only if
+        # every writer of a container's contents leaves the stored volume equal to the volume of those contents
+        from . import c10
+        c10.pairing(ctx, 'C02.R1')
 
     # sibling agreement: the other totals of a mixture
     siblings(ctx)
